@@ -48,15 +48,19 @@ theorem hbResp_same_log {fuel : Nat} {m : Message} {r r' : Raft} {e : Option Ste
     | preCandidate => rw [hstt] at h; simp only at h; rw [hbResp_stepCandidate_run fuel m r ht] at h; exact hign h
     | follower => rw [hstt] at h; simp only at h; rw [hbResp_stepFollower_run fuel m r ht] at h; exact hign h
 
-/-- a leader's tick (no CheckQuorum, no leadership transfer) keeps the log -/
-theorem tick_leader_log {r r' : Raft} (hl : r.state = .leader) (hcq : r.cfg.checkQuorum = false)
+/-- a leader's tick (no leadership transfer) keeps the log -/
+theorem tick_leader_log {r r' : Raft} (hl : r.state = .leader)
     (hx : r.leadTransferee = 0) (h : Raft.tick.run r = .ok ((), r')) : r'.log = r.log := by
   rw [tick_leader_run r hl] at h
-  obtain ⟨ra, ⟨he, ee, rfl⟩, hcase⟩ := tickHeartbeat_leader_inv r r' hl hcq hx h
-  rcases hcase with rfl | ⟨res, hb⟩
-  · rfl
-  · obtain ⟨u, hu⟩ := stepLeader_beat_bcast _ _ _ _ _ rfl hb
-    exact ((bcastHeartbeat_sf _).elim hu).log
+  obtain ⟨ra, ⟨he, ee, rfl⟩, hcase⟩ := tickHeartbeat_leader_inv r r' hl hx h
+  rcases hcase with ⟨rb, hrb, hcase⟩ | ⟨r1, hbf, rfl⟩
+  · have hrb' : rb.log = r.log := by rcases hrb with rfl | rfl <;> rfl
+    rcases hcase with rfl | ⟨res, hb⟩
+    · exact hrb'
+    · obtain ⟨u, hu⟩ := stepLeader_beat_bcast _ _ _ _ _ rfl hb
+      exact (((bcastHeartbeat_sf _).elim hu).log).trans hrb'
+  · obtain ⟨d, rest, _, rfl⟩ := becomeFollower_run_exact hbf
+    rfl
 
 theorem settled_hb_same {val : Val} {voters : List Id} {n : Nat} {s : Spec.State} {r r' : Raft} {m : Message}
     {e : Option StepErr} {fuel : Nat} (hinv : RaftInv val voters n r (s.nodes n) s.msgs) (hs : Settled r)
@@ -74,6 +78,6 @@ theorem settled_hbResp_same {val : Val} {voters : List Id} {n : Nat} {s : Spec.S
 theorem settled_tick_leader {val : Val} {voters : List Id} {n : Nat} {s : Spec.State} {r r' : Raft}
     (hinv : RaftInv val voters n r (s.nodes n) s.msgs) (hs : Settled r) (hl : r.state = .leader)
     (h : Raft.tick.run r = .ok ((), r')) : Settled r' :=
-  hs.congr (by rw [tick_leader_log hl hinv.st.cq hinv.st.xfer h])
+  hs.congr (by rw [tick_leader_log hl hinv.st.xfer h])
 
 end RaftVerif.Sim
